@@ -12,6 +12,9 @@ insertions uniform in the cell, inserted molecules uniformly oriented.
 Decision: K independent chains per workload, standard error from the spread of the chain
 means; |z| > 5 flags; a flag is re-measured once with fresh seeds and 4x the samples and
 is a violation only if flagged again with the same sign.
+Workloads added after the seeded-change rounds: a coarse-step Hamiltonian run in which
+most proposals are rejected, and a grand-canonical ideal gas next to a framework of
+non-exchanged atoms (negative labels).
 """
 from __future__ import annotations
 
